@@ -248,10 +248,23 @@ func c20Pairs(w *core.W) {
 	}
 }
 
+var c20Boundary = []string{"2147483647", "2147483648", "4294967295", "4294967296", "9007199254740992", "9007199254740993", "9223372036854775807", "9223372036854775808", "9223372036854775809",
+	"18446744073709551615", "18446744073709551616", "99999999999999999999", "123456789012345678901234567890", "0", "1"}
+
 func c20Run(w *core.W) {
 	if w.Shard == 0 {
 		c20Vocabulary(w)
 		c20Pairs(w)
+	}
+	if w.Shard == 0 {
+		// numerals at the limits of the machine integers and far beyond them
+		for _, lit := range c20Boundary {
+			for _, sign := range []string{"", "-"} {
+				for _, frac := range []string{"", ".0", ".5", ".50"} {
+					c20Literal(w, []byte(sign+lit+frac), "boundary")
+				}
+			}
+		}
 	}
 	e := &seq.Enum{Tokens: c20Tokens, N: c20N(w.Tier), W: w}
 	e.Run(func(s []byte, ntok int, own bool) bool {
